@@ -326,23 +326,25 @@ async def _run(case):
             if got != want:
                 vio.append(V("C17/wkc-listing-differs" + ("/filter-" + flt[0] if flt else ""), "step %d filter %r:\n listed   %r\n expected %r" % (si, flt, got, want)))
             else:
-                # attributes of the listed links
-                by = {"/" + "/".join(full): leaf for full, leaf in entries}
-                for h, a in links:
-                    leaf = by.get(pct_decode(h))
-                    if leaf is None:
-                        continue
-                    for k, lk in (("rt", "rt"), ("if", "if_"), ("ct", "ct")):
-                        want_v = [leaf[lk]] if leaf.get(lk) else None
-                        if a.get(k) != want_v:
-                            vio.append(V("C17/wkc-attribute-differs/" + k, "%s: %r vs %r" % (h, a.get(k), want_v)))
+                # attributes of the listed links (as a multiset: two resources may end up under one href)
+                def attrs_of_leaf(leaf):
+                    return tuple((k, leaf[lk]) for k, lk in (("rt", "rt"), ("if", "if_"), ("ct", "ct")) if leaf.get(lk))
+
+                def attrs_of_link(a):
+                    return tuple((k, a[k][0]) for k in ("rt", "if", "ct") if a.get(k))
+
+                want_full = sorted(("/" + "/".join(full), attrs_of_leaf(leaf)) for full, leaf in entries)
+                got_full = sorted((pct_decode(h), attrs_of_link(a)) for h, a in links)
+                if want_full != got_full:
+                    diff = [x for x in got_full if x not in want_full][:3]
+                    vio.append(V("C17/wkc-attribute-differs", "listed %r, expected among %r" % (diff, [x for x in want_full if x not in got_full][:3])))
             if len(sites) > 1:
                 labels.add("wkc-nested")
     if both_kinds:
         labels.add("leaf-and-site-at-one-path")
     if removed_then_requested:
         labels.add("removal-then-request")
-    return Outcome(vio, sorted(labels), both_kinds or removed_then_requested)
+    return Outcome(vio, sorted(labels), both_kinds or removed_then_requested or len(sites) >= 3)
 
 
 _path = st.lists(st.sampled_from(COMPONENTS), max_size=4)
@@ -389,6 +391,30 @@ def _case(draw):
     return {"steps": draw(st.lists(_step(), min_size=2, max_size=25))}
 
 
+def cases_prefix_chains():
+    """finite family: nested sites registered in ONE site at paths that are prefixes of each other, leaves at the colliding
+    paths, and every request path over {a,b,c,x} up to length 4 (plus trailing-slash forms)"""
+    import itertools
+
+    chain = [["a"], ["a", "b"], ["a", "b", "c"]]
+    paths = [list(p) for n in range(1, 5) for p in itertools.product("abcx", repeat=n) if p[0] == "a"] + [["a", ""], ["a", "b", ""], ["a", "b", "c", ""], ["b"], ["x"]]
+    for r in range(1, 4):
+        for subset in itertools.combinations(range(3), r):
+            for root_leaves in ([], [["a"]], [["a"], ["a", "b"]], [["a", "b", "c", "x"]]):
+                steps = []
+                for si, idx in enumerate(subset):
+                    steps.append({"op": "add_site", "site": 0, "path": chain[idx]})
+                    for leaf in ([], ["x"], ["b"], ["b", "x"], ["c", "x"], ["b", "c", "x"]):
+                        steps.append({"op": "add_leaf", "site": si + 1, "path": leaf, "rt": "temp" if leaf == ["x"] else None})
+                for leaf in root_leaves:
+                    steps.append({"op": "add_leaf", "site": 0, "path": leaf})
+                for p in paths:
+                    steps.append({"op": "request", "site": 0, "mode": "random", "path": p, "pick": 0, "extra": "a"})
+                steps.append({"op": "wkc", "site": 0})
+                steps.append({"op": "wkc", "site": 0, "filter": ["href", "/a/b*"]})
+                yield {"steps": steps}
+
+
 def selftest():
     global route
     assert parse_link_format('</a>;rt="x y";ct=40,</b/c>') == [("/a", {"rt": ["x y"], "ct": ["40"]}), ("/b/c", {})]
@@ -416,13 +442,16 @@ RULE = (
     "Requests go through Context.render_to_pipe on a real Site with a stub remote. Oracle after every step: reference router of the statement (exact resource, else nested site at the longest proper "
     "non-empty prefix with the remainder, evaluated recursively, else 4.04); the handler that ran, the uri_path it saw (remainder) and get_request_uri() (original path and query) must match; the listing "
     "parsed with an independent link-format parser must name exactly the non-hidden leaves with full paths (impl-info link ignored) with their attributes, and with a filter exactly the reference filter's subset. "
-    "Non-trivial = a path that is both a leaf and a nested site, or a removal followed by a request. Distinct = SHA-1 of the case."
+    "prefix_chains enumerates nested sites whose paths are prefixes of each other within one site, with every request path over a small alphabet. Non-trivial = a path that is both a leaf and a nested site, a removal followed by a request, or >= 2 nested sites. Distinct = SHA-1 of the case."
 )
 
 
 def build(tier):
     return CheckSpec(
-        [Sub("histories", run_case, strategy=_case, budget={"quick": 2500, "thorough": 50000}, max_wall={"quick": 55, "thorough": 2400})],
+        [
+            Sub("prefix_chains", run_case, cases=cases_prefix_chains, exhaustive=True, note="nested sites at a, a/b, a/b/c (all 7 subsets) x 4 root-leaf placements, every request path over {a,b,c,x} up to length 4"),
+            Sub("histories", run_case, strategy=_case, budget={"quick": 2500, "thorough": 50000}, max_wall={"quick": 55, "thorough": 2400}),
+        ],
         RULE,
         assumptions=[
             "documented preconditions of Site are respected: no nested site at the empty path or at a path ending in '', the degenerate request path ('',) is not used, a path holding both a leaf and a site is never removed",
